@@ -47,6 +47,13 @@ theorem gti_filter_exact (gtis : List Gti.Ivl) (ts : List Int) (t : Int) :
 theorem gti_filter_sublist (gtis : List Gti.Ivl) (ts : List Int) : ((Gti.filterTimes gtis ts).1).Sublist ts :=
   Gti.filter_sublist gtis ts
 
+/-- the same on the definition regenerated from the loop of `xGTIList.filter_event_times` (T-tie, `Gen/Imp.lean`) -/
+theorem gen_gti_filter_exact (gtis : List Gti.Ivl) (ts : List Int) (t : Int) :
+    t ∈ (Gen.Imp.filter_event_times gtis ts).1 ↔ t ∈ ts ∧ ∃ g ∈ gtis, g.1 ≤ t ∧ t ≤ g.2 := Gti.gen_filter_exact gtis ts t
+
+theorem gen_gti_filter_sublist (gtis : List Gti.Ivl) (ts : List Int) : ((Gen.Imp.filter_event_times gtis ts).1).Sublist ts :=
+  Gti.gen_filter_sublist gtis ts
+
 /-- hit-or-miss vignetting: the set of uniform variates in [0, 1) for which the event survives has length min(1, max(0, v)),
 i.e. an event at off-axis angle θ survives with probability min(1, vign(E, θ)) -/
 theorem vignetting_keep_prob (v : ℝ) :
